@@ -969,11 +969,26 @@ func genericRecGuard(scc []*ssa.Function) (string, bool) {
 					if pi >= len(args) {
 						return
 					}
-					b, ok := args[pi].(*ssa.BinOp)
-					if !ok || b.Op != token.SUB || b.X != ssa.Value(p) {
-						return
+					// p-k, p/k, (p-1)/k ... : strictly smaller than p while p is positive
+					shrinks := false
+					var down2 func(v ssa.Value, d int) bool
+					down2 = func(v ssa.Value, d int) bool {
+						b, ok := v.(*ssa.BinOp)
+						if !ok || d > 3 {
+							return false
+						}
+						k, isC := eng.ConstInt(b.Y)
+						if !isC {
+							return false
+						}
+						switch {
+						case b.Op == token.SUB && k >= 1, b.Op == token.QUO && k >= 2, b.Op == token.SHR && k >= 1:
+							return b.X == ssa.Value(p) || down2(b.X, d+1)
+						}
+						return false
 					}
-					if k, isC := eng.ConstInt(b.Y); !isC || k < 1 {
+					shrinks = down2(args[pi], 0)
+					if !shrinks {
 						return
 					}
 					if eng.GuardedBy(g, ci.Block(), func(fc eng.Fact) bool {
